@@ -402,29 +402,6 @@ end alone
 
 /-! ### from the single token to the license -/
 
-theorem pieces_chars (c : Cls) (s : Str) (p : Piece) (hp : p ∈ pieces c s) : ∀ x ∈ p.text, x ∈ s := by
-  intro x hx
-  have := pieces_concat c s
-  rw [← this]
-  simp only [List.mem_flatten, List.mem_map]
-  exact ⟨p.text, ⟨p, hp, rfl⟩, hx⟩
-
-theorem blank_no_words (c : Cls) (hc : ClsOK c) (s : Str) (h : isBlank c s = true) : wordsOf c s = [] := by
-  have hall : ∀ x ∈ s, c.isSpace x = true := by simpa [isBlank] using h
-  have : wordPieces c s = [] := by
-    unfold wordPieces
-    rw [List.filter_eq_nil_iff]
-    intro p hp
-    obtain ⟨hne, hkind, _⟩ := pieces_kind c s p hp
-    obtain ⟨x, hx⟩ := List.exists_mem_of_ne_nil _ hne
-    have hsp := hall x (pieces_chars c s p hp x hx)
-    have hk := hkind x hx
-    have h1 : x ≠ LPAR := by intro h; rw [h, hc.parenNotSpace.1] at hsp; cases hsp
-    have h2 : x ≠ RPAR := by intro h; rw [h, hc.parenNotSpace.2] at hsp; cases hsp
-    simp [kindOf, h1, h2, hsp] at hk
-    simp [← hk]
-  simp [wordsOf, this]
-
 /-- **a stored name alone**: a text whose folded words are those of names that all belong to the license
     `s` — whatever its letter case and the blanks between its words — parses to `s` -/
 theorem parse_alone (c : Cls) (hc : ClsOK c) (T : Table) (text : Str) (s : Sym)
